@@ -33,6 +33,9 @@ type c01RoundPlan struct {
 	fPrecommit  map[int]string // node -> the faulty validators' precommit towards it
 	staleBefore map[int]bool   // nodes that receive everything held back so far, before the round starts
 	equivocate  map[int]bool   // nodes that receive, at the end of the round, a SECOND proposal (another block) of this round's faulty proposer
+	noParts     map[int]bool   // nodes that receive this round's Proposal message but none of its block parts
+	staleAfter  map[int]bool   // nodes that receive everything held back so far right after the proposal of this round
+	pcOnly      map[int]bool   // nodes that receive no precommits beyond pcFrom / fPrecommit before their timeout fires
 }
 
 type c01Rounds struct {
@@ -245,9 +248,15 @@ func (e *c01Rounds) round(round int32, plan c01RoundPlan) bool {
 				case *ProposalMessage:
 					return m.Proposal.Round == round
 				case *BlockPartMessage:
-					return m.Round == round
+					return m.Round == round && !plan.noParts[h.me]
 				}
 				return false
+			})
+		}
+		if plan.staleAfter[h.me] {
+			e.take(h, func(mi msgInfo) bool {
+				vm, ok := mi.Msg.(*VoteMessage)
+				return ok && vm.Vote.Round < round
 			})
 		}
 		if h.cs.Height == e.height && h.cs.Round == round && h.cs.Step <= cstypes.RoundStepPropose {
@@ -296,10 +305,10 @@ func (e *c01Rounds) round(round int32, plan c01RoundPlan) bool {
 		if h.cs.Height != e.height || h.cs.Round != round || h.panicked {
 			continue
 		}
-		if h.cs.Step < cstypes.RoundStepPrecommitWait {
+		if h.cs.Step < cstypes.RoundStepPrecommitWait && !plan.pcOnly[h.me] {
 			e.faultyVotes(h, tmproto.PrecommitType, round, "nil")
 		}
-		if h.cs.Height == e.height && h.cs.Round == round && h.cs.Step < cstypes.RoundStepPrecommitWait {
+		if h.cs.Height == e.height && h.cs.Round == round && h.cs.Step < cstypes.RoundStepPrecommitWait && !plan.pcOnly[h.me] {
 			e.take(h, func(mi msgInfo) bool { return isVote(mi, tmproto.PrecommitType, round, nil) })
 		}
 		if h.cs.Height == e.height && h.cs.Round == round {
@@ -408,7 +417,36 @@ func c01Opening(r *vg.Rand, q []int, which int) (faulty int, plans []c01RoundPla
 			fPrecommit: map[int]string{a: "prop", b: "prop", c: "prop"},
 			equivocate: map[int]bool{a: true}}
 		return f, []c01RoundPlan{p0}, "commit-without-block-then-conflicting-proposal"
-	default:
+	case 3:
+		// "commit of an earlier round while waiting for a withheld proposal": everybody passes round 0
+		// with nil; in round 1 b proposes X, a misses the proposal and precommits nil while b and c
+		// lock X and (with the faulty validator's precommit, kept from a) decide; in round 2 the
+		// faulty proposer sends a the Proposal message for another block Z and withholds its parts;
+		// only then does a receive the precommit that completes the round-1 commit for X: it must
+		// drop Z's part set, fetch X and decide.
+		if q[2] == q[1] || q[2] == q[0] {
+			break
+		}
+		f, b := q[2], q[1]
+		ac := others(f, b)
+		if len(ac) != 2 {
+			break
+		}
+		a, c := ac[0], ac[1]
+		if r.Bool() {
+			a, c = c, a
+		}
+		abc := map[int][]int{a: {a, b, c}, b: {a, b, c}, c: {a, b, c}}
+		p0 := c01RoundPlan{fPropose: "new", noProposal: map[int]bool{a: true, b: true, c: true},
+			pvFrom: abc, fPrevote: map[int]string{a: "nil", b: "nil", c: "nil"},
+			pcFrom: abc, fPrecommit: map[int]string{a: "nil", b: "nil", c: "nil"}}
+		p1 := c01RoundPlan{fPropose: "new", noProposal: map[int]bool{a: true},
+			pvFrom: abc, fPrevote: map[int]string{b: "prop", c: "prop"},
+			pcFrom: abc, fPrecommit: map[int]string{b: "prop", c: "prop"}, pcOnly: map[int]bool{a: true}}
+		p2 := c01RoundPlan{fPropose: "new", noParts: map[int]bool{a: true}, staleAfter: map[int]bool{a: true}}
+		return f, []c01RoundPlan{p0, p1, p2}, "earlier-round-commit-while-awaiting-withheld-proposal"
+	}
+	{
 		// "stale polka after a re-lock": b alone locks X in round 0; a alone locks Y in round 1
 		// (the faulty validator's prevote for Y is kept from b and c); in round 2 X is proposed
 		// again, b and c lock X and c alone sees the commit for X; then b receives the round-1
@@ -465,7 +503,8 @@ func c01RandomPlan(r *vg.Rand, net *c01Net, round int32) c01RoundPlan {
 		return "prop"
 	}
 	p := c01RoundPlan{fPropose: "new", noProposal: map[int]bool{}, pvFrom: map[int][]int{}, fPrevote: map[int]string{},
-		late: map[int]bool{}, pcFrom: map[int][]int{}, fPrecommit: map[int]string{}, staleBefore: map[int]bool{}}
+		late: map[int]bool{}, pcFrom: map[int][]int{}, fPrecommit: map[int]string{}, staleBefore: map[int]bool{},
+		noParts: map[int]bool{}, staleAfter: map[int]bool{}}
 	if round > 0 && r.Chance(40) {
 		p.fPropose = fmt.Sprintf("re%d", r.Intn(int(round)))
 	}
@@ -490,6 +529,12 @@ func c01RandomPlan(r *vg.Rand, net *c01Net, round int32) c01RoundPlan {
 		}
 		if r.Chance(30) {
 			p.staleBefore[v] = true
+		}
+		if r.Chance(15) {
+			p.noParts[v] = true
+		}
+		if r.Chance(20) {
+			p.staleAfter[v] = true
 		}
 	}
 	return p
